@@ -100,6 +100,7 @@ type c12Run struct {
 	rep   *lib.Report
 	fs    *fileStore
 	dir   string
+	prog  lib.Progress // the shape in progress, for the case that decoding dies of a fatal runtime error (a garbage length)
 	count int64
 	shard int
 	nsh   int
@@ -110,6 +111,7 @@ func (r *c12Run) check(desc string, n *btreeNode, viaFile bool, nontrivial bool)
 	if int(r.count)%r.nsh != r.shard {
 		return
 	}
+	r.prog.Set("shape", desc)
 	want := c12Logical(n)
 	fail := func(kind, d string) {
 		r.rep.AddFailure(&lib.Failure{Kind: kind, Detail: desc + ": " + d, Trace: []string{desc, want}})
@@ -274,6 +276,8 @@ func runC12(env *lib.Env, rep *lib.Report) {
 	}
 	defer fs.file.Close()
 	r := &c12Run{rep: rep, fs: fs, dir: dir, shard: env.Shard, nsh: env.NShards}
+	r.prog.MapJournal(env.Journal)
+	defer r.prog.Done()
 
 	sizes := []int{0, 1, 2, 399, 400}
 	lsns := []uint64{0, 1, 1 << 32, 1<<64 - 1}
@@ -419,6 +423,33 @@ func runC12(env *lib.Env, rep *lib.Report) {
 		r.check(fmt.Sprintf("left half of split leaf n=%d", n), left, true, true)
 		r.check(fmt.Sprintf("right half of split leaf n=%d", n), right, true, true)
 	}
+	// --- leaves whose cells were rewritten by updateCell (the engine's UPDATE): every cell of leaves of 1..4 cells
+	// updated from every size to every size (shorter, equal, longer, empty, the maximum), one or two updates
+	for n := 1; n <= 4; n++ {
+		for _, from := range sizes {
+			for _, to := range sizes {
+				for pos := 0; pos < n; pos++ {
+					keys, sz, del := mk(n, 20)
+					for i := range sz {
+						sz[i] = from
+					}
+					l := &c12Leaf{keys: keys, sizes: sz, deleted: del, lsn: 3, off: 8192, hasR: n%2 == 0, rOff: 4096 * 9}
+					node := l.build()
+					if err := node.updateCell(keys[pos], c12Value(to, 77)); err != nil {
+						panic(lib.HarnessError{Msg: "updateCell: " + err.Error()})
+					}
+					node.markDirty(4)
+					r.check(fmt.Sprintf("leaf n=%d all cells %d bytes, cell %d updated to %d bytes", n, from, pos, to), node, true, true)
+					// a second update of the same cell back to another size
+					if err := node.updateCell(keys[pos], c12Value((from+to)/2, 78)); err != nil {
+						panic(lib.HarnessError{Msg: "updateCell: " + err.Error()})
+					}
+					r.check(fmt.Sprintf("leaf n=%d all cells %d bytes, cell %d updated to %d then %d bytes", n, from, pos, to, (from+to)/2), node, true, true)
+				}
+			}
+		}
+	}
+	rep.Bounds["updated leaves"] = "leaves of 1..4 cells, each cell rewritten by updateCell from every size to every size of the size set, once and twice"
 	// --- internal nodes
 	for _, n := range []int{0, 1, 2, 3, 144, 145, 289, maxInternalNodeCells} {
 		for _, base := range keyBases {
